@@ -186,6 +186,78 @@ def scenario(ctx, p):
             "left_after": None if left_at is None else round(left_at - t_cut, 6), "T": T}
 
 
+def membership_quorum(ctx, seed):
+    """`hasQuorum` across membership changes: a voter is removed (its connection is closed by the transport), crashes,
+    is added again while unreachable, then the remaining peers are lost: `hasQuorum` must be False everywhere (connected
+    to none of the voters known) — a connection that ended while the node was not a member must not count."""
+    s = simmod.Sim(ctx.repo, ["n0", "n1", "n2"], conf={"dynamicMembershipChange": True, "leaderFallbackTimeout": 1.0}, seed=seed)
+
+    def hook(i):
+        t = s.transports[i]
+        orig = t.dropNode
+
+        def drop(n, i=i):
+            orig(n)
+            if frozenset((i, n.id)) in s.alive or (i, n.id) in s.up:
+                s.disconnect(i, n.id)          # what TCPTransport.dropNode does: close the connection, report it
+        t.dropNode = drop
+    for i in s.voters:
+        hook(i)
+    s.connect_all()
+    viol, stages = [], []
+
+    def quorum(stage):
+        stages.append(stage)
+        for i in live:
+            o = s.objs[i]
+            known = sorted(n.id for n in o.otherNodes)
+            conn = [x for x in known if (i, x) in s.up]
+            want = 2 * (len(conn) + 1) > len(known) + 1
+            if bool(o.hasQuorum) != want:
+                viol.append({"signature": "hasQuorum:wrong-value",
+                             "what": "%s: node %s hasQuorum=%r but it is connected to %s of the voters it knows %s"
+                                     % (stage, i, o.hasQuorum, conn, known)})
+    live = list(s.voters)
+    L = s.elect()
+    if L is None:
+        return {"viol": [], "cut": False}
+    for _ in range(6):
+        for i in live:
+            s.tick(i, 0.0625)
+        s.deliver_all()
+    quorum("after start")
+    X = [i for i in s.voters if i != L][0]
+    Y = [i for i in s.voters if i not in (L, X)][0]
+    res = []
+    s._call(L, s.objs[L].removeNodeFromCluster, s.Node(X), callback=lambda r, e: res.append(("rem", e)))
+    for _ in range(12):
+        for i in live:
+            s.tick(i, 0.0625)
+        s.deliver_all()
+    quorum("after the removal of %s" % X)
+    # X crashes: whatever connection is left dies, X does not tick any more
+    live = [L, Y]
+    for j in (L, Y):
+        s.cut(X, j)
+        s.notice(j, X)
+    s._call(L, s.objs[L].addNodeToCluster, s.Node(X), callback=lambda r, e: res.append(("add", e)))
+    for _ in range(16):
+        for i in live:
+            s.tick(i, 0.0625)
+        s.deliver_all(among=set(live))
+    quorum("after %s was added again (unreachable)" % X)
+    s.disconnect(L, Y)
+    for i in live:
+        s.tick(i, 0.0625)
+    quorum("after the partition (nobody is connected to anybody)")
+    for _ in range(24):
+        for i in live:
+            s.tick(i, 0.0625)
+    quorum("after the fallback timeout")
+    ok = ("rem", 0) in res and ("add", 0) in res
+    return {"viol": viol, "cut": ok, "callbacks": res, "stages": stages}
+
+
 def params(ctx):
     rng = ctx.rng("c20_isolation")
     out = []
@@ -238,14 +310,30 @@ def run(ctx):
             if v["signature"] not in [x["signature"] for x in viols]:
                 v["replay"] = {"params": p}
                 viols.append(v)
+    cov["membership_quorum"] = 0
+    for sd in range(ctx.seed, ctx.seed + ctx.scale(2, 6)):
+        r = membership_quorum(ctx, sd)
+        done += 1
+        if r["cut"]:
+            cov["membership_quorum"] += 1
+        for v in r["viol"]:
+            if v["signature"] + ":membership" not in [x.get("_k") for x in viols]:
+                v["_k"] = v["signature"] + ":membership"
+                v["replay"] = {"membership_quorum": sd}
+                viols.append(v)
     res = {"cases": done, "distinct": len(distinct), "coverage": cov, "samples": ps[:2], "disagreements": [],
            "violations": viols[:5], "wall_s": round(time.time() - t0, 2)}
-    if cov["scenarios_cut"] < 10 or cov["stepdowns"] < 10 or len(cov["by_size"]) < 4:
+    if cov["membership_quorum"] == 0:
+        res["inconclusive"] = "remove / re-add of a voter did not commit in any run"
+    elif cov["scenarios_cut"] < 10 or cov["stepdowns"] < 10 or len(cov["by_size"]) < 4:
         res["inconclusive"] = "too few isolation scenarios executed: %r" % ({k: cov[k] for k in ("scenarios_cut", "stepdowns", "by_size")},)
     return res
 
 
 def replay(ctx, violation):
+    if "membership_quorum" in violation.get("replay", {}):
+        r = membership_quorum(ctx, violation["replay"]["membership_quorum"])
+        return {"violated": bool(r["viol"]), "violations": r["viol"][:5], "callbacks": r.get("callbacks")}
     r = scenario(ctx, violation["replay"]["params"])
     return {"violated": any(v["signature"] == violation["signature"] for v in r["viol"]),
             "violations": r["viol"][:5], "observed": {k: r.get(k) for k in ("checks", "stepdowns", "left_after", "T")}}
